@@ -26,6 +26,18 @@ def c18Step (line : String) : String :=
     match c18Bool swp, c18Opt ca, c18Opt s, c18Bool h, c18List o with
     | some swp, some ca, some s, some h, some o => c18Show (C18.negotiate swp ca s h o)
     | _, _, _, _, _ => "bad-op"
+  | ["chain", h, prefs, o] =>
+    match c18Bool h, (if prefs = "noalpn" then some none else (c18List prefs).map some), c18List o with
+    | some h, some prefs, some o =>
+      let r := C18.eagerChain prefs h o
+      c18Show r.1 ++ " " ++ c18Show r.2
+    | _, _, _ => "bad-op"
+  | ["nested", h, eager, prefs, oo, io] =>
+    match c18Bool h, c18Bool eager, (if prefs = "noalpn" then some none else (c18List prefs).map some), c18List oo, c18List io with
+    | some h, some eager, some prefs, some oo, some io =>
+      let r := C18.nestedSession h oo io prefs eager
+      c18Show r.1 ++ " " ++ c18Show r.2.1 ++ " " ++ c18Show r.2.2
+    | _, _, _, _, _ => "bad-op"
   | ["srv", h, preset, co] =>
     match c18Bool h, c18List preset, c18List co with
     | some h, some p, some co =>
